@@ -111,6 +111,17 @@ def econtCreate (c : ECont) (n : String) (dense : Bool) (dflt : Int) : ECont :=
 /-- `h[k] = v` where `h` is the attribute called `n` of the container `c` -/
 def econtAttrSet (c : ECont) (n : String) (k : Nat) (v : Int) : ECont := (c.1, c.2.map (attrSetOne n k v))
 
+/-! ### numpy arrays handed to `from_arrays` -/
+
+/-- `np.pad(V, ((0, 0), (a, b)))`: every row padded with `a` zeros in front and `b` behind -/
+def padCols (V : List (List Rat)) (a b : Nat) : List (List Rat) :=
+  V.map (fun v => List.replicate a 0 ++ v ++ List.replicate b 0)
+/-- `np.any(np.asarray(E) >= n)` / `> n` on an edge array, on a face or cell array -/
+def anyEdgeGE (E : List (Int × Int)) (n : Nat) : Bool := E.any (fun e => decide ((n : Int) ≤ e.1) || decide ((n : Int) ≤ e.2))
+def anyEdgeGT (E : List (Int × Int)) (n : Nat) : Bool := E.any (fun e => decide ((n : Int) < e.1) || decide ((n : Int) < e.2))
+def anyRowGE (F : List (List Nat)) (n : Nat) : Bool := F.any (fun f => f.any (fun v => decide (n ≤ v)))
+def anyRowGT (F : List (List Nat)) (n : Nat) : Bool := F.any (fun f => f.any (fun v => decide (n < v)))
+
 def enumFrom {α : Type} : Nat → List α → List (Nat × α)
   | _, [] => []
   | i, x :: xs => (i, x) :: enumFrom (i + 1) xs
